@@ -190,6 +190,16 @@ def case_oracle(ctx, case, mr=None):
     c = fc.Contract(v, content, fail_fn(ctx, case), writable=writable, probe_outside=probe)
     c.run(ops)
     ctx.stat(case['cls'] + '_histories')
+    if case['cls'] == 'reader-file' and mr is not None:
+        # reader-owned files have a Coq model too (Model/PosReader.v, proved lawful): same history on the extracted model
+        line = 'posreader ' + hx(content) + ' ' + ' '.join(
+            ('r,' + zhex(o[1])) if o[0] == 'r' else ('s,%s,%s' % (zhex(o[1]), zhex(o[2]))) if o[0] == 's' else 't' for o in ops)
+        out = mr.ask(line).split(' ') if ops else []
+        if out != c.results[:len(out)]:
+            k = next((i for i, (a, b) in enumerate(zip(out, c.results)) if a != b), None)
+            ctx.diff('corr', 'posreader-model', case, out[k] if k is not None else str(out)[:80], c.results[k] if k is not None else str(c.results)[:80],
+                     f'reader-owned file: Coq model and implementation differ at op {k}')
+        ctx.stat('posreader_model_histories')
     if case['cls'] == 'merger' and mr is not None:
         # the merged file also has a Coq model (Model/Merger.v): same history on the extracted model
         ops = [o for o in ops if o[0] != 'w']
@@ -251,7 +261,7 @@ def run_cases(ctx, cases):
 
 
 def run(ctx):
-    proof = prove('C09', ['fileio'], ['C09_bridge', 'C09_props'],
+    proof = prove('C09', ['fileio', 'common', 'dpfs', 'ivfcpd'], ['C09_bridge', 'C09_props'],
                   static_deps=['Proofs/WindowProofs.v', 'Base/ListExt.v', 'Base/PySlice.v', 'Env/PyFile.v'])
     run_cases(ctx, gen_cases(ctx, ctx.rng))
     extra = {}
